@@ -21,9 +21,9 @@ func (*C01) Rule() string {
 }
 
 func (*C01) Plan(tier string) orch.Plan {
-	n := 48
+	n := 600
 	if tier == "thorough" {
-		n = 6000
+		n = 40000
 	}
 	return orch.Plan{Episodes: n, Batch: 1}
 }
